@@ -412,3 +412,37 @@ def _flag_run(S, entry_states, flag, slot, pol, ctor=False):
                 if nxt not in IN[m]:
                     IN[m].add(nxt); work.append(m)
     return exits, handoffs, viol
+
+
+@rule('R-UAC-REFPARAM', ['C02', 'C13', 'C05'], floor=15)
+def uac_refparam(run, F):
+    """a completion handler that destroys its own host slot (the child operation that is calling it) does not use its reference parameters afterwards: values and errors passed by reference may live inside the operation state that was just destroyed, so they must be taken by value or consumed before the destruct"""
+    from ..facts import accesses
+    hosts, recv = host_relation(F)
+    slot_of = collections.defaultdict(set)
+    for (fam, m), xs in hosts.items():
+        for x in xs: slot_of[x].add(m)
+    gcache = {}
+    for x, slots in sorted(slot_of.items()):
+        fam = recv[x]['_family']
+        for h in F.by_record.get(x, []):
+            if h['name'] not in ('set_value', 'set_error', 'set_done') or not h.get('blocks') or h.get('lambda'): continue
+            refparams = {p['name'] for p in h.get('params', []) if p['name'] and '&' in p['type']}
+            try: S = Super(F, h, [fam], graph_cache=gcache)
+            except TooBig: continue
+            dnodes = [n for n, e in enumerate(S.ev) if e.get('k') == 'call' and e['callee'].get('name') in DES and target_member(e) in slots]
+            run.inst(site(h), 'reference parameters %s not used after destroying own slot %s' % (sorted(refparams), sorted(slots)), nontrivial=bool(refparams and dnodes), key=(x, h['name'], len(h.get('params', []))))
+            if not refparams or not dnodes: continue
+            for d in dnodes:
+                after = S.reach([m for m, lab in S.succ.get(d, []) if lab != 'exc'])
+                for n in sorted(after):
+                    if S.fn[n] is not h and not S.fn[n].get('lambda'): continue      # parameter names are only meaningful in the handler and its lambdas
+                    e = S.ev[n]
+                    used = [p for p, rw in accesses(e) if p.split('.')[0] in refparams]
+                    if used:
+                        run.violation(h['qname'], 'refparam-after-destruct:' + used[0].split('.')[0], S.where(n),
+                                      'parameter `%s` is taken by reference and used after this handler destroyed %s at %s; if the sender passed an object stored in its own operation state (as just/just_error/single do) the reference now dangles — take it by value or consume it before the destruct' % (
+                                          used[0].split('.')[0], '/'.join(sorted(slots)), S.where(d)))
+                        break
+                else: continue
+                break
